@@ -143,6 +143,9 @@ type CertificateValidity struct {
 	Until    time.Time
 	IsStatic bool //does it have an explicit "from"?
 	IsSet    bool //if false, it should inherit default values
+
+	UntilIsStatic bool   //does it have an explicit "until"?
+	Duration      string //the configured duration, if any
 }
 
 type Manipulations struct {
@@ -159,9 +162,16 @@ type Manipulations struct {
 // This also goes for all implementations of ExtensionConfig.
 func (c CertificateContent) HashSum() []byte {
 	//c is not a pointer, so this change is temporary
-	if !c.Validity.IsStatic || !c.Validity.IsSet {
+	//times relative to the run are left out; an explicit end date and the
+	//configured duration stay in, since they determine the certificate
+	if !c.Validity.IsSet {
 		c.Validity.From = time.Time{}
 		c.Validity.Until = time.Time{}
+	} else if !c.Validity.IsStatic {
+		c.Validity.From = time.Time{}
+		if !c.Validity.UntilIsStatic {
+			c.Validity.Until = time.Time{}
+		}
 	}
 	c.Profile = ""
 	c.Alias = ""
